@@ -76,11 +76,21 @@ pub async fn run_acb_app_to_delta_models(
             &mut err_printer,
         )?;
 
-        load_tx_rates(&mut csv_txs, &mut rate_loader).await?;
+        // Errors past this point do not say where they come from on their own,
+        // so attribute them to the file (and row, where we know it).
+        let csv_desc = csv_reader.desc().to_string();
+
+        load_tx_rates(&mut csv_txs, &mut rate_loader)
+            .await
+            .map_err(|e| format!("Error in {csv_desc}: {e}"))?;
 
         let mut txs = Vec::<Tx>::with_capacity(csv_txs.len());
         for csv_tx in csv_txs {
-            txs.push(Tx::try_from(csv_tx)?)
+            // Start at 1 for the user, and include header.
+            let row_num = (csv_tx.read_index - global_read_index) + 2;
+            txs.push(Tx::try_from(csv_tx).map_err(|e| {
+                format!("Error on row {row_num} of {csv_desc}: {e}")
+            })?)
         }
 
         global_read_index += txs.len() as u32;
